@@ -24,9 +24,25 @@ def coq_files():
     return [f for f in vlib.coq_files(CODEC) if f not in ("Extract.v",)]
 
 
+CODEC_REQUIRES = ["FlacCodec.Wf", "FlacCodec.Stream", "FlacCodec.Progress", "FlacCodec.Props_codec", "FlacCodec.Pins"]
+BASE_THEOREMS = ["crc16_valid_single_bit_detected", "crc8_valid_single_bit_detected"]
+# property -> theorems of coq/codec/Props_codec.v claimed for it (grows as proofs land)
+THEOREMS = {
+    "C01": ["C17_parse_inverts_write", "ex_frame_roundtrip"],
+    "C02": ["C17_parse_inverts_write", "crc16_append", "crc8_append"],
+    "C03": ["C17_parse_inverts_write"],
+    "C04": ["C04_frame_total_release", "C04_stream_total_release", "C04_frame_progress"],
+    "C05": BASE_THEOREMS + ["crc16_single_bit", "crc16_append", "crc8_append"],
+    "C14": ["C04_frame_progress", "C17_parse_inverts_write"],
+    "C16": ["C17_parse_inverts_write"],
+    "C17": ["C17_parse_inverts_write", "ex_frame_wf", "ex_frame_roundtrip"],
+    "C19": ["C17_parse_inverts_write"],
+}
+
+
 def proof_stage(chk, pid, theorems=None, requires=None):
-    thms = theorems or ["crc16_valid_single_bit_detected", "crc8_valid_single_bit_detected"]
-    reqs = ["Coq.Lists.List", "Coq.NArith.NArith", "Coq.ZArith.ZArith", "FlacBase.Bits", "FlacBase.Crc", "FlacBase.Pins"] + (requires or [])
+    thms = theorems or THEOREMS.get(pid) or BASE_THEOREMS
+    reqs = ["Coq.Lists.List", "Coq.NArith.NArith", "Coq.ZArith.ZArith", "FlacBase.Bits", "FlacBase.Crc", "FlacBase.Pins"] + CODEC_REQUIRES + (requires or [])
     return vlib.proof_stage(
         chk, coq_dirs=[BASE, CODEC], build_dir=CODEC, qflags="-Q ../base FlacBase -Q . FlacCodec",
         requires=reqs, theorems=thms,
